@@ -41,11 +41,13 @@ CFG = {
 MANIFEST = (
     "Rocq proof: native-depth and AST-depth bounds for a skeleton model of the recursive-descent parser with ghost call-depth counter; "
     "child-process runtime oracle (no panic / abort / hang) over corpus mutations, nesting and chain generators, delimiter and name pools",
-    "Partial by nature: stack exhaustion and panics are runtime behaviour. Proved (Props/C06.v) over the Gallina skeleton of parser.rs, for "
-    "every token list: the native call depth of the parser is at most 7*MAX_RECURSION_DEPTH + MAX_ELIF_DEPTH + 9, the depth of the AST it "
-    "returns is bounded by the limits alone (independent of the input length), nesting beyond each limit is the error outcome, and the "
-    "fusion pass never indexes out of bounds; for the tree before the D11 repair the same statements are refuted by explicit chains. The "
-    "model is tied to the code by comparing accept/reject and observed AST depths on generated token lists; the runtime part is observed "
-    "directly: every input registered in a child process on a 2 MiB and an 8 MiB stack with a time limit.",
+    "Partial by nature: stack exhaustion and panics are runtime behaviour. Proved (Props/C06.v, closed under the global context) over the "
+    "Gallina skeleton of parser.rs, for every token list: the native call depth of the parser is at most 7*MAX_RECURSION_DEPTH + "
+    "MAX_ELIF_DEPTH + 7 whatever the outcome; the AST of every accepted input is at most MAX_EXPRESSION_DEPTH + 2*MAX_RECURSION_DEPTH + "
+    "MAX_ELIF_DEPTH + 2 deep, independent of the input length; nesting beyond each limit is the error outcome; the fusion pass never "
+    "indexes out of bounds. For the tree before the D11 repair both bounds are refuted by explicit chains (witness lemmas). The model is "
+    "tied to the code by comparing accept/reject and the observed AST depths on generated token lists, and the two new limits are "
+    "re-extracted from parser.rs on every run; the runtime part is observed directly: every input registered in a child process on a "
+    "2 MiB and an 8 MiB stack with a time limit.",
     "§6 C06",
 )
